@@ -34,7 +34,7 @@ type stepper interface {
 }
 
 type fault struct {
-	kind  string // none|over|under|zero
+	kind  string // none|over|under|zero|park (park: `call` holds the spare key)
 	call  int
 	key   uint
 	delta uint
@@ -42,7 +42,7 @@ type fault struct {
 
 func (f fault) String() string {
 	switch f.kind {
-	case "over", "under":
+	case "over", "under", "park":
 		return fmt.Sprintf("%d:%s:%d:%d", f.call, f.kind, f.key, f.delta)
 	case "zero":
 		return fmt.Sprintf("%d:zero", f.call)
@@ -115,6 +115,15 @@ func (s *session) fail(format string, args ...any) {
 }
 
 func (s *session) applyFault(idx int, m map[uint]uint) {
+	if m != nil && s.flt.kind == "park" {
+		// a custom divider that obeys the sum rule but books part of the quantity under a key
+		// that is not one of the priorities it was given (every call except the constructor's)
+		if idx != 0 && m[s.flt.key] >= s.flt.delta {
+			m[s.flt.key] -= s.flt.delta
+			m[uint(s.flt.call)] += s.flt.delta
+		}
+		return
+	}
 	if m == nil || idx != s.flt.call {
 		return
 	}
